@@ -802,6 +802,12 @@ class Interp:
         """Text of one formatted value, or None when it is not concrete."""
         if isinstance(x, Obj) and x.strval is not None:
             x = x.strval
+        elif isinstance(x, Obj) and isinstance(x.attrs.get("floatval"), float) and \
+                (x.cls is None or self.model.lookup_method(x.cls, "__format__") is None):
+            x = x.attrs["floatval"]
+        elif isinstance(x, Obj) and isinstance(x.attrs.get("intval"), int) and \
+                (x.cls is None or self.model.lookup_method(x.cls, "__format__") is None):
+            x = x.attrs["intval"]
         if is_opaque(x):
             return None
         if isinstance(x, (str, int, float, bytes, bool)) or x is None:
@@ -1243,6 +1249,8 @@ class Interp:
         if isinstance(o, Unknown):
             raise Unsupported(f"use of {o!r}")
         if isinstance(o, (int, float)):
+            if isinstance(o, int) and name in ("bit_length", "bit_count", "to_bytes", "conjugate", "__index__"):
+                return Native(name, lambda i, a, k, o=o, name=name: getattr(o, name)(*a, **k))
             raise AbsRaise("AttributeError", f"int has no attribute {name}")
         if isinstance(o, (bytes, str, tuple, set, frozenset)) and not hasattr(o, name):
             raise AbsRaise("AttributeError", f"{type(o).__name__} has no attribute {name}")
@@ -1739,6 +1747,25 @@ class Interp:
                                 "America/Port-au-Prince", "Z"})
 
     def _native_obj_attr(self, o, name):
+        if o.name in ("base64", "binascii"):
+            # pure functions of the standard library on concrete data: computed
+            import base64 as _b64, binascii as _ba
+            fn = getattr({"base64": _b64, "binascii": _ba}[o.name], name, None)
+            if name == "Error":
+                return TypeTok("binascii.Error")
+            if fn is None or not callable(fn):
+                raise Unsupported(f"{o.name}.{name}")
+
+            def pure(i, a, k, fn=fn):
+                aa = [x.strval if isinstance(x, Obj) and x.strval is not None else x for x in a]
+                if any(is_opaque(x) or not isinstance(x, (str, bytes, int, bool, type(None))) for x in aa) or \
+                        any(not isinstance(v, (str, bytes, int, bool, type(None))) for v in k.values()):
+                    raise Unsupported(f"{o.name}.{name} of a non-concrete value")
+                try:
+                    return fn(*aa, **k)
+                except (ValueError, TypeError) as e:       # binascii.Error is a ValueError
+                    raise AbsRaise("ValueError" if isinstance(e, ValueError) else "TypeError", str(e))
+            return Native(f"{o.name}.{name}", pure)
         if o.name == "pytz":
             if name in ("utc", "UTC"):
                 return TZ("utc", "UTC", "pytz")
@@ -3011,6 +3038,9 @@ class Interp:
                     return NativeObj("copy")
                 if r[1] in ("collections.namedtuple",):
                     return Native("namedtuple", self._namedtuple)
+                if r[1] in ("base64", "binascii") or r[1].startswith(("base64.", "binascii.")):
+                    mod, _, attr = r[1].partition(".")
+                    return NativeObj(mod) if not attr else self._native_obj_attr(NativeObj(mod), attr)
                 if r[1] == "pytz":
                     return NativeObj("pytz")
                 if r[1] in ("pytz.utc", "pytz.UTC"):
